@@ -46,6 +46,8 @@ ASSUMPTIONS = [
     "existence status is compared with the reference evaluator of C01 (interval for transitive); the same "
     "termination guard as in floor_C01 applies",
     "nodes are matched to assets by object identity of node.asset",
+    "generated classes (LanguageClassesFactory) are cached per worker process, keyed by types / associations / "
+    "defenses; LanguageGraph, Model and AttackGraph are built afresh for every case",
 ]
 BUDGET_S = {"quick": 100, "thorough": 1500}
 CHUNK = 150
@@ -197,8 +199,14 @@ def run_case(recipe):
     r = CaseResult()
     seen = set()
     if real.build_error is not None:
-        r.check("C02.no-crash", False, real._stage, "building the language / a valid model raised %r" % (real.build_error,),
-                "build:%s:%s" % (real._stage.split(".")[-1], type(real.build_error).__name__))
+        got_names = [str(a.name) for a in real.objs]
+        clash = len(set(got_names)) < len(got_names)        # add_asset already handed out one name twice
+        r.check("C02.no-crash", False, FN_ASSET if clash else real._stage,
+                "building the language / a valid model raised %r (asset names so far: %s)" % (
+                    real.build_error, got_names),
+                "build:%s:%s%s" % (real._stage.split(".")[-1], type(real.build_error).__name__,
+                                   ":asset-names-collide" if clash else ""))
+        r.nontrivial_key = common.recipe_hash(recipe)
         return r
     objs = real.objs
     names = [str(a.name) for a in objs]
